@@ -65,7 +65,7 @@ def parseCmd : List String → Option Cmd
     match nr.toList with
     | [n, r] => do
       let n ← parseBit n; let r ← parseBit r
-      pure { «from» := f, device := d, chanId := i, chanType := t, normalize := n, requestScoped := r, scoped := sc }
+      pure { sender := f, device := d, chanId := i, chanType := t, normalize := n, requestScoped := r, scopedN := sc }
     | _ => none
   | _ => none
 
